@@ -1,5 +1,11 @@
 /* unit gca - growing_circular_array (C12).  Contracts and harnesses; the function bodies come from lowered.h */
+/* monitors for the sync obligation: order of the last capacity load/store, and whether a cell was stored after the capacity store */
+extern int mon_cap_load_order, mon_cap_store_order; extern _Bool mon_cell_store_after_cap; extern void* mon_cap_addr;
+#define XV_ON_LOAD(addr, val, order) ((void*)(addr) == mon_cap_addr ? (void)(mon_cap_load_order = (order)) : (void)0)
+#define XV_ON_STORE(addr, val, order) ((void*)(addr) == mon_cap_addr ? (void)(mon_cap_store_order = (order), mon_cap_stored = 1) : (void)(mon_cell_store_after_cap = mon_cap_stored))
+extern _Bool mon_cap_stored;
 #include "xv.h"
+int mon_cap_load_order, mon_cap_store_order; _Bool mon_cell_store_after_cap, mon_cap_stored; void* mon_cap_addr;
 int xv_threw; uint64_t xv_clock, xv_rmw_old; _Bool xv_cas_ok;
 typedef uintptr_t entry;           /* T* : an opaque word */
 #define NUM_BUCKETS 32             /* utils::find_last_bit_set(1<<31) */
@@ -46,6 +52,7 @@ void xv_env(void);
 /* the same invariant as cbmc loop-contract clauses for the Route D cross-check (goto-instrument --dfcc) */
 #define XV_LOOP_CONTRACT_GROW __CPROVER_assigns(i, gA_v, gB_v, xv_scratch, xv_clock) __CPROVER_loop_invariant(XV_INV_GROW) __CPROVER_decreases(bottom - i)
 size_t in_gj; entry in_gjv; size_t in_top, in_bottom; unsigned in_c;
+static size_t gca_capacity(struct gca* self);
 #include "lowered.h"
 
 /* spec-level slot function (uses the contract of find_last_bit_set) */
@@ -90,8 +97,10 @@ void h_getput(void) {
   slot_of(j, g._capacity, &gA_b, &gA_o); gA_v = old_j;
   gB_b = NUM_BUCKETS; gB_o = 0;
   int o1 = nondet_int(), o2 = nondet_int();
+  mon_cap_addr = &g._capacity; mon_cap_load_order = -1;
   gca_put(&g, i, v, o1);
   entry r = gca_get(&g, j, o2);
+  XV_OBL("gca.sync.capacity_publish", XV_IS_ACQUIRE(mon_cap_load_order));
   _Bool congruent = (i & (g._capacity - 1)) == (j & (g._capacity - 1));
   XV_OBL("gca.put_get.roundtrip", r == (congruent ? v : old_j));
   XV_OBL("gca.put_get.roundtrip", g._capacity == ((size_t)1 << c));
@@ -110,7 +119,9 @@ void h_grow(void) {
   slot_of(in_gj, cap0, &gA_b, &gA_o); slot_of(in_gj, 2 * cap0, &gB_b, &gB_o);
   gA_v = in_gjv; if (gA_b == gB_b && gA_o == gB_o) gB_v = in_gjv;
   _Bool moved = !(gA_b == gB_b && gA_o == gB_o);
+  mon_cap_addr = &g._capacity; mon_cap_stored = 0; mon_cell_store_after_cap = 0; mon_cap_store_order = -1;
   gca_grow(&g, in_bottom, in_top);
+  XV_OBL("gca.sync.capacity_publish", mon_cap_stored && XV_IS_RELEASE(mon_cap_store_order) && !mon_cell_store_after_cap);
   entry r = moved ? gB_v : gA_v;
   XV_OBL("gca.grow.preserves", r == in_gjv);
   XV_OBL("gca.grow.capacity_doubled", g._capacity == 2 * cap0 && g._buckets == in_c + 2);
